@@ -31,7 +31,7 @@ ASSUMPTIONS = ['FST objects passed as code are built fresh for every request (th
 BOUNDS = {
     'quick': '62 programs; depth 1: full fault alphabet (29 fault kinds at every node/list field and at the root) + 1-code edit alphabet; '
              'depth 2 (programs under 90 characters): after every distinct valid first edit (replace, remove, insert, slice put, comment put), the reduced (lite) fault alphabet',
-    'thorough': 'quick + depth 2 after the 3-code alphabet with 2 forms, faults with all option settings',
+    'thorough': 'depth 1 with the 6-code alphabet, 3 forms and 2 option settings on every program; depth 2 (programs under 90 characters, 48 of 62): the full fault alphabet after every distinct valid first edit of that alphabet (a deeper run over all programs did not complete within the time available for this build and is not claimed)',
 }
 
 BAD_PRIMS = {
@@ -437,7 +437,7 @@ def run_shard(desc, tier, res):
     orig = E.apply
     E.apply = lambda f, r, o: apply(f, r, o)  # noqa: E731
     try:
-        XX.bfs(fst, src0, 2 if (tier == 'thorough' or len(src0) < 90) else 1, [a1, a2], tuple(desc['part']), res, on_state, on_raise=on_raise,
+        XX.bfs(fst, src0, 2 if len(src0) < 90 else 1, [a1, a2], tuple(desc['part']), res, on_state, on_raise=on_raise,
                cid_prefix=f"C12/p{desc['prog']}/", enum=enum)
     finally:
         E.apply = orig
